@@ -499,66 +499,8 @@ func c02R5(c *Ctx, dv *ssa.Function) {
 	if n < 2 {
 		c.Fail("R5", "callers-of-DigestVerify", dv.Pos(), "fewer than two callers of DigestVerify remain in the module")
 	}
-	// MembershipAutoVerify: which stored snapshot supplies which digest
-	auto := p.MustMethod("client", "HTTPClient", "MembershipAutoVerify")
-	getSnap := p.MustMethod("client", "HTTPClient", "GetSnapshot")
-	memDig := p.MustMethod("client", "HTTPClient", "MembershipDigest")
-	var snap *ssa.Alloc
-	eachInstr(auto, func(in ssa.Instruction) {
-		if al, ok := in.(*ssa.Alloc); ok && namedIs(deref(al.Type()), pkgBalloon, "Snapshot") {
-			snap = al
-		}
-	})
-	if snap == nil {
-		c.Fail("R5", funcName(auto)+":snapshot-wiring", auto.Pos(), "no balloon.Snapshot is assembled for verification")
-		return
-	}
-	_, byField := p.storesTo(snap)
-	versionOf := func(t *Term, digestField string) string {
-		// GetSnapshot(c, proof.<F>)#0.<digestField>  ->  F
-		if !t.IsField(digestField, nil) {
-			return ""
-		}
-		var f string
-		t.Has(func(x *Term) bool {
-			if x.IsCallTo(getSnap) && len(x.Args) == 2 {
-				a := x.Args[1]
-				if a.Op == "field" && a.Args[0].Has(func(y *Term) bool { return y.IsCallTo(memDig) }) {
-					f = a.Name
-				}
-			}
-			return false
-		})
-		return f
-	}
-	okH, okY, sawCur := true, true, false
-	var why []string
-	for _, v := range byField["HistoryDigest"] {
-		t := p.TermOf(v)
-		if t.Op == "const" {
-			continue
-		}
-		if versionOf(t, "HistoryDigest") != "QueryVersion" {
-			okH = false
-			why = append(why, "HistoryDigest ← "+t.String())
-		}
-	}
-	for _, v := range byField["HyperDigest"] {
-		t := p.TermOf(v)
-		if t.Op == "const" {
-			continue
-		}
-		switch versionOf(t, "HyperDigest") {
-		case "CurrentVersion":
-			sawCur = true
-		case "QueryVersion":
-		default:
-			okY = false
-			why = append(why, "HyperDigest ← "+t.String())
-		}
-	}
-	c.Check(okH && okY && sawCur, "R5", funcName(auto)+":snapshot-wiring", auto.Pos(), "history digest from the stored snapshot of QueryVersion, hyper digest from that of CurrentVersion",
-		"snapshot assembled for verification takes its digests from the wrong stored snapshot: "+strings.Join(why, "; ")+fmt.Sprintf(" (hyper-from-current=%v)", sawCur))
+	// MembershipAutoVerify: which stored snapshot supplies which digest (path-sensitive, finite order model)
+	snapshotPairing(c, "R5", dv)
 }
 
 func typeOfTerm(t *Term) types.Type {
